@@ -91,7 +91,7 @@ func (propC09) Gen(r *Rng, idx int, tier string) *Scenario {
 		}
 	}
 	if fr.Chance(1, 10) {
-		p.Completion = fr.Pick([]string{"1", "verbose"})
+		p.Completion = fr.Pick([]string{"1", "verbose", "0", "false", "no", "x"})
 		p.CompWhen = fr.Pick([]string{"", "late", "unset-late"})
 		if p.CompWhen == "unset-late" {
 			p.Faults = nil // the line is then expected to run like its twin
